@@ -31,6 +31,17 @@ CHECKS = {
             'parent references hold.',
             'Provider side only; one MDIB file; depth/alphabet bounds as in the evidence. Version bookkeeping of the oracle is '
             'independent of handle_version_lookup.', '3/C02'),
+    'C03': ('H+I', 'exhaustive crash-point enumeration over transaction bodies plus exhaustive enumeration (by reflection) of nested attribute paths of every handed-out object, against full canonical MDIB snapshots',
+            'For 13 transaction bodies covering every transaction kind through the classic and the entity interface, an exception is '
+            'raised after every non-empty ordered selection of the body\'s API calls and in the pre-commit hook; 29 calls the API must '
+            'reject and 3 commit paths the API can make fail are issued alone and after a valid modification; every nested attribute '
+            'path (reflection depth 2, thorough 3; scalars, list members, empty lists, extension lists) of the objects handed out by 11 '
+            'transaction getters, 6 entity getters and 6 transaction results is overwritten in an aborted transaction, after the commit, '
+            'on an entity copy and on the transaction result. After each case the full canonical snapshot (content, all version '
+            'counters, removed-version look-up, index scan) must equal the one before and the transaction observable must not fire.',
+            'Provider-side ProviderMdib with role providers, no subscriber; commit failures other than those reachable through the API '
+            '(e.g. a table operation raising spontaneously) are not injected; tr.actual_descriptor() is a documented read accessor to '
+            'the live object and is not treated as a copy.', '3/C03'),
     'C11': ('H', 'explicit-state BFS with canonical-state dedup over table operation histories on the real MultiKeyLookup tables, plus MDIB history exploration; invariant = indices equal an independent regrouping of table.objects',
             'Breadth-first search over add (3 variants) / remove (3 variants) / attribute write + update_object / clear / bulk add / '
             'update_objects / duplicate-key add on the real DescriptorsLookup, StatesLookup, MultiStatesLookup, a generic 3-index '
